@@ -438,6 +438,25 @@ pub fn run(cx: &mut Ctx) {
         });
     }
     if !cfg!(miri) {
+        // a label name's offset inside the text section swept across the absolute positions of the
+        // strings in it (two number spaces that overlap when names are long enough)
+        for chunk in 0..4usize {
+            cx.case("label_name_offsets_sweep", |c| {
+                c.sit("label_name_offsets_sweep");
+                for l in (chunk * 40 + 1)..=(chunk * 40 + 40) {
+                    let mut m = RefArchive::new(l % 2 == 0);
+                    m.data = vec![0x33; 16];
+                    m.text.insert(0, "walk".to_string());
+                    if l % 3 == 0 {
+                        m.text.insert(12, "victim".to_string());
+                    }
+                    m.labels.insert(0, vec!["walk".to_string()]);
+                    m.labels.insert(4, vec!["y".repeat(l)]);
+                    m.labels.insert(8, vec!["victim".to_string()]);
+                    check_content(c, "label_name_offsets_sweep", &m, 1);
+                }
+            });
+        }
         for which in 0..archive::THRESHOLD_VARIANTS {
             cx.case("threshold", |c| {
                 let mut rng = c.rng.clone();
